@@ -125,7 +125,8 @@ class TraitSet(set):
         added : set
             The new items that have been added to the set.
         """
-        for notifier in self.notifiers:
+        # Iterate over a copy: a notifier may add or remove notifiers.
+        for notifier in list(self.notifiers):
             notifier(self, removed, added)
 
     # -- set interface -------------------------------------------------------
